@@ -227,7 +227,15 @@ func (c *Client) handlePacket(pktx pkts.Packet) error {
 
 	// Broker PUBLISH QoS 2 transaction.
 	case *pkts1.Pubrel:
-		transactionx, _ := c.transactions.Get(pkt.MessageID())
+		transactionx, hasTransaction := c.transactions.Get(pkt.MessageID())
+		if !hasTransaction {
+			// The transaction is already finished, i.e. our PUBCOMP was lost
+			// and the PUBREL was resent => answer again, the message itself
+			// was already delivered.
+			pubcomp := pkts1.NewPubcomp()
+			pubcomp.CopyMessageID(pkt)
+			return c.send(pubcomp)
+		}
 		transaction, ok := transactionx.(*brokerPublishQOS2Transaction)
 		if !ok {
 			c.log.Error("Unexpected transaction type %T for packet: %v", transactionx, pkt)
